@@ -138,6 +138,7 @@ Proof.
   - destruct r; try exact H. destruct k as [|p]; try exact H. destruct p as [p|p|]; try exact H.
     destruct p; try exact H. destruct cbp; [exact H|apply c_exact_wf; exact H].
   - destruct ad; [apply c_insert_wf; exact H|exact H].
+  - unfold c_mgmtcap. destruct (max_int <? u)%N; exact H.
 Qed.
 
 Definition bytes_ok (c : cache) (t0 : Z) (tr : list tstep) : Prop :=
@@ -230,6 +231,7 @@ Proof.
     + apply Same; [intro; reflexivity|reflexivity].
   - apply Same; [intro; reflexivity|reflexivity].
   - apply Same; [intro; reflexivity|reflexivity].
+  - apply bytes_ok_same with c; [unfold c_mgmtcap; destruct (max_int <? u)%N; reflexivity|unfold c_mgmtcap; destruct (max_int <? u)%N; simpl; unfold adv_of; simpl; lia|intro; reflexivity|exact B].
 Qed.
 
 (* for every history: entries have distinct names, the cache clock is the history's clock, and each cached entry carries
